@@ -43,9 +43,11 @@ CLAIMED = {
             'reported match inside a name block): one token per block, unknown runs become one license keyed by their words, the parse '
             'is the tree of the derivation + exhaustive token strings and grammar-generated strings, independent reference parser',
             'Theorems bparse_complete, with_grouping_complete, tokenize_segments (Proofs/Segments.v: survival of dominant matches with '
-            'duplicates, coverage, position-ordered lists with equal members are equal) and parse_blocks (Proofs/Blocks.v).',
-            'The segmentation premise is the no-crossing proviso of the property; that a given layout satisfies it is shown per text '
-            '(example in Props/C02.v) and exercised by the generators.', 'DESIGN.md section 4 C02'),
+            'duplicates, coverage, position-ordered lists with equal members are equal), parse_blocks (Proofs/Blocks.v) and, for tables '
+            'without operator words, layout_parses_derivation (Proofs/Layout.v): the word pieces cut into one group per item of a derivation '
+            'parse to its tree, with no premise about the reported matches.',
+            'For tables whose names hold operator words the segmentation premise is the no-crossing proviso of the property; that a given '
+            'layout satisfies it is shown per text (examples in Props/C02.v) and exercised by the generators.', 'DESIGN.md section 4 C02'),
     'C03': ('Coq proof, full statement on the model: no foreign exception from parse / validate for every table, flags and string; '
             'accepted token sequences are well formed (allowed adjacencies, balanced parentheses, non-empty); stray WITH refused; '
             'blank -> None; a parse error carries no token or points at a run of consecutive words of the text (position = start of '
